@@ -7,7 +7,7 @@
 //! string commands, WGL search with memoisation).
 //! The schedules are SAMPLED: the seed fixes the programs of the clients and their yield
 //! patterns, not the interleaving the runtime picks.
-use crate::c03::{apply, h_bytes, h_str, new_state, new_state_ctx, r1, Op, State};
+use crate::c03::{apply, h_bytes, h_str, new_state, new_state_ctx, new_state_perf, r1, Op, State};
 use crate::enc::hex;
 use crate::out::Out;
 use crate::rng::Rng;
@@ -34,8 +34,11 @@ fn spec(state: &Option<Vec<u8>>, op: &Op) -> (Option<Vec<u8>>, String) {
         "GET" | "FGET" | "PGET" | "EGET" | "ESGET" | "XSGET" => (state.clone(), state.as_ref().map(bulk).unwrap_or("nil".into())),
         "SET" | "FSET" | "PSET" | "ESET" | "ESSET" => (Some(op.vals[0].clone()), "ok".into()),
         // one item of a batched call
-        "BGET" => (state.clone(), format!("m:[{}]", state.as_ref().map(bulk).unwrap_or("nil".into()))),
+        "BGET" | "MGET" => (state.clone(), format!("m:[{}]", state.as_ref().map(bulk).unwrap_or("nil".into()))),
         "BSET" => (Some(op.vals[0].clone()), "m:[ok]".into()),
+        // one item of a generic fan-out
+        "MSET" => (Some(op.vals[0].clone()), "ok".into()),
+        "DEL" => (None, format!("i:{}", state.is_some() as u8)),
         "SETNX" => match state {
             Some(_) => (state.clone(), "i:0".into()),
             None => (Some(op.vals[0].clone()), "i:1".into()),
@@ -241,8 +244,58 @@ fn random_case(rng: &mut Rng, fixed: bool) -> Case {
             programs[i % clients].push((op, rng.below(4) as u8));
             continue;
         }
+        if class != "counter" && class != "fast" && rng.chance(1, 7) {
+            // a generic fan-out over the keys of the case (all of them for FLUSHALL)
+            let mut fk = vec![k.clone()];
+            for x in &keys {
+                if !fk.contains(x) && rng.chance(1, 2) {
+                    fk.push(x.clone());
+                }
+            }
+            let op = match rng.below(8) {
+                0 | 1 => Op::new("MGET", fk, vec![]),
+                2 | 3 => {
+                    let vs = fk.iter().map(|_| val(rng)).collect();
+                    Op::new("MSET", fk, vs)
+                }
+                4 => {
+                    if fk.len() < 2 {
+                        fk.push(format!("pad{}", rng.below(30)).into_bytes());
+                    }
+                    Op::new("DEL", fk, vec![])
+                }
+                5 => Op::new("FLUSH", keys.clone(), vec![]),
+                6 => Op::new("DBSIZE", vec![], vec![]),
+                _ => Op::new("KEYS", vec![], vec![]),
+            };
+            for x in &op.keys {
+                if x != &k {
+                    *per_key_count.entry(x.clone()).or_insert(0) += 1;
+                }
+            }
+            programs[i % clients].push((op, rng.below(4) as u8));
+            continue;
+        }
         let op = gen_op(rng, class, &k);
         programs[i % clients].push((op, rng.below(4) as u8));
+    }
+    // FLUSHALL deletes EVERY key any client of the case touches (pad keys of batches included)
+    let mut universe: Vec<Vec<u8>> = Vec::new();
+    for p in &programs {
+        for (o, _) in p {
+            for x in &o.keys {
+                if !universe.contains(x) {
+                    universe.push(x.clone());
+                }
+            }
+        }
+    }
+    for p in programs.iter_mut() {
+        for (o, _) in p.iter_mut() {
+            if o.name == "FLUSH" {
+                o.keys = universe.clone();
+            }
+        }
     }
     Case { n, class, programs }
 }
@@ -348,6 +401,48 @@ async fn client(st: Arc<State>, clock: Arc<AtomicU64>, prog: Vec<(Op, u8)>) -> V
             }
             continue;
         }
+        if matches!(op.name, "MGET" | "MSET" | "DEL" | "FLUSH" | "DBSIZE" | "KEYS") {
+            // a generic fan-out racing the single-key operations.  No atomicity across keys is
+            // claimed; what is checked: every ITEM of MGET / MSET is one single-key operation inside
+            // the call's interval; every key of a multi-key DEL / of FLUSHALL is a delete whose own
+            // reply is not observable (only the sum is): it is recorded as an operation WITHOUT a
+            // response (it may take effect at any point after the invocation).  DBSIZE / KEYS are
+            // issued to race, their replies are not judged.
+            use redis_sim::redis::{Command, RespValue, SDS};
+            let n = op.keys.len().max(1) as u64;
+            let id0 = clock.fetch_add(n, Ordering::SeqCst);
+            let skeys: Vec<String> = op.keys.iter().map(|k| String::from_utf8(k.clone()).unwrap()).collect();
+            let reply = match op.name {
+                "MGET" => st.execute(&Command::MGet(skeys.clone())).await,
+                "MSET" => st.execute(&Command::MSet(skeys.iter().cloned().zip(op.vals.iter().map(|v| SDS::new(v.clone()))).collect())).await,
+                "DEL" => st.execute(&Command::Del(skeys.clone())).await,
+                "FLUSH" => st.execute(&Command::FlushAll).await,
+                "DBSIZE" => st.execute(&Command::DbSize).await,
+                _ => st.execute(&Command::Keys("*".into())).await,
+            };
+            let d0 = clock.fetch_add(n, Ordering::SeqCst);
+            for j in 0..op.keys.len() {
+                let id = id0 + j as u64;
+                match op.name {
+                    "MGET" => {
+                        let r = match &reply {
+                            RespValue::Array(Some(v)) => v.get(j).map(|x| format!("m:[{}]", r1(x))).unwrap_or("m:[e:?missing]".into()),
+                            o => r1(o),
+                        };
+                        evs.push(Event { stamp: id, id, inv: Some(Op::new("MGET", vec![op.keys[j].clone()], vec![])), res: None });
+                        evs.push(Event { stamp: d0 + j as u64, id, inv: None, res: Some(r) });
+                    }
+                    "MSET" => {
+                        evs.push(Event { stamp: id, id, inv: Some(Op::new("MSET", vec![op.keys[j].clone()], vec![op.vals[j].clone()])), res: None });
+                        evs.push(Event { stamp: d0 + j as u64, id, inv: None, res: Some(r1(&reply)) });
+                    }
+                    // DEL (several keys) and FLUSHALL: a delete of every key, reply not observable
+                    "DEL" | "FLUSH" => evs.push(Event { stamp: id, id, inv: Some(Op::new("DEL", vec![op.keys[j].clone()], vec![])), res: None }),
+                    _ => {}
+                }
+            }
+            continue;
+        }
         let id = clock.fetch_add(1, Ordering::SeqCst);
         let r = apply(&st, &op).await;
         let done = clock.fetch_add(1, Ordering::SeqCst);
@@ -397,7 +492,7 @@ fn judge(out: &mut Out, events: Vec<Event>, class: &'static str, n: usize, clien
             bad_keys.push(k.clone());
         }
         for (i, a) in ops.iter().enumerate() {
-            writes |= !matches!(a.op.name, "GET" | "FGET" | "PGET" | "BGET" | "EGET" | "ESGET" | "STRLEN");
+            writes |= !matches!(a.op.name, "GET" | "FGET" | "PGET" | "BGET" | "MGET" | "EGET" | "ESGET" | "STRLEN");
             for b in ops.iter().skip(i + 1) {
                 let a_end = a.res.as_ref().map(|r| r.0).unwrap_or(usize::MAX);
                 let b_end = b.res.as_ref().map(|r| r.0).unwrap_or(usize::MAX);
@@ -447,7 +542,11 @@ fn judge(out: &mut Out, events: Vec<Event>, class: &'static str, n: usize, clien
 async fn cancel_case(out: &mut Out, rng: &mut Rng, fixed: bool, corpus: bool) {
     use redis_sim::redis::Command;
     let n = 4usize;
-    let st = Arc::new(new_state(n));
+    // the response pool is generated configuration (through the real validate()): the default
+    // (256 / 64 pre-warmed) in the fixed case, else capacity 1 … 256 and prewarm 0 … capacity
+    let (cap, pre) = if corpus { (256usize, 64usize) } else { *rng.pick(&[(1usize, 0usize), (1, 1), (2, 2), (8, 3), (64, 64), (256, 64)]) };
+    let st = Arc::new(new_state_perf(n, cap, pre).map(|x| x.0).unwrap_or_else(|| new_state(n)));
+    out.count(&format!("cancel:pool-capacity={}:prewarm={}", cap, pre));
     let clock = Arc::new(AtomicU64::new(1));
     let mut events: Vec<Event> = Vec::new();
     let busy: Vec<u8> = b"busy:key".to_vec();
@@ -864,7 +963,7 @@ pub fn run(a: &Args) {
             let mut r = rng.fork();
             let c = random_case(&mut r, fixed);
             run_case(&mut out, c, fixed).await;
-            if i % 4000 == 1999 {
+            if i % 2000 == 999 {
                 cancel_case(&mut out, &mut r, fixed, false).await;
             }
             if i % 8 == 3 {
@@ -873,5 +972,18 @@ pub fn run(a: &Args) {
             }
         }
     });
+    out.extra.insert("audit".into(), serde_json::from_str(r####"{
+ "1 entry paths": "CLOSED: every ShardMessage kind that carries a client request is in the concurrent mix (generic incl. EVAL/EVALSHA, fast, pooled, batch get/set) — see C03 api_coverage; EvictExpired is not a client operation (no history event)",
+ "2 input alphabet": "CLOSED: keys from C03's structured alphabet; values incl. integers / non-integers for INCR; OPEN: only string commands in histories (other types: C01)",
+ "3 comparisons at equality": "CLOSED: reads invoked just before / at / just past / far past a deadline",
+ "4 configuration": "CLOSED: 1,2,4,8,16 shards; response pool capacity 1..256 / prewarm 0..capacity in the cancellation histories; 2..8 clients",
+ "5 capacity thresholds": "CLOSED: more pooled acquisitions than the pool holds, during and after a stall; pool of capacity 1",
+ "6 fault kinds": "CLOSED: request futures dropped while queued (the only await point of the pooled / oneshot paths is the response wait; send is synchronous); OPEN: shard actor panic / channel closure ('ERR shard unavailable') not injected",
+ "7 history shapes": "CLOSED: overlapping ops on one key, sequential corpora per path pair, batched calls, generic fan-outs racing single-key ops, abandoned (pending) operations, timed phases; OPEN: clock advancing WHILE operations are in flight (phases advance it only when all clients are idle)",
+ "8 node-global state": "CLOSED: script introduced by EVAL on one shard, EVALSHA elsewhere",
+ "9 observations": "CLOSED: every reply (verified WGL + Rust checker), direct reply-matches-request oracle in cancellation histories; fan-outs: every ITEM of MGET/MSET is a single-key op inside the call's interval, every key of multi-key DEL / FLUSHALL is a delete without observable reply (pending op); OPEN: DBSIZE / KEYS / SCAN / RANDOMKEY replies under concurrency are NOT judged (no atomic-snapshot claim is made for fan-outs: C02 is per key)",
+ "10 finding absorption": "no listed finding for C02",
+ "11 harness fragility": "CLOSED: verified checker made just-in-time (no exponential blow-up on non-linearizable histories); OPEN: schedules are sampled"
+}"####).unwrap());
     out.finish("case = one concurrent history: 2..8 client tasks (multi-thread tokio runtime, seeded random yields) issue 6..12 single-key string commands per key over 1..3 keys through execute (plain commands and the same commands as Lua scripts via EVAL and via SCRIPT LOAD + EVALSHA) / fast_* / pooled_fast_* / fast_batch_get_pipeline / fast_batch_set_pipeline (batches of 1..4 keys, every item one single-key operation with the call's interval) of a real ShardedActorState with 1, 2, 4, 8 or 16 shards; invocation/response stamped by a global atomic counter. Schedules are SAMPLED (the seed fixes programs and yield patterns, not the interleaving). plus TIMED histories (a key gets a PX / EX deadline; the simulated clock is advanced by hand between phases to just before / at / just past / far past it, with no traffic, traffic to another shard or traffic to the key's own shard in between; then 2..4 clients read the key concurrently through generic GET/EXISTS/MGET, fast, pooled, batched and script (EVAL, EVALSHA) paths, optionally racing a writer; both checkers use a sequential specification with a clock: an operation invoked at virtual time t sees a key iff t < deadline; pattern distribution under timed:*); plus cancellation histories (a slow script keeps one shard busy, pooled requests to it are abandoned by a timeout while queued and stay pending, then 4..8 single-writer clients run > pool-size pooled SET/GET rounds during and after the stall; every reply is also checked directly against its request). distinct by the stamped history text; non-trivial iff two operations on one key overlap in real time and the key is written, or an operation was abandoned");
 }
